@@ -496,3 +496,45 @@ contract(
         "sorted_nondecr(result[2])",
     ],
 )
+
+
+# ---------------------------------------------------------------------------------------------
+# C05.b  load_csr: the dense block returned for rows [r0, r1) holds exactly the stored entries of
+# those rows (composition of the two contracts above; a body that stops going through
+# _load_sparse / _csr_to_dense has to establish the same post-condition on its own)
+# ---------------------------------------------------------------------------------------------
+def _gen_load_csr(rng, size):
+    g = _gen_csr(rng, size, with_spec=True)
+    g['row_spec'] = g.pop('indptr_spec')
+    n_cols = (max(g['indices']) + 1 if len(g['indices']) else 0) + rng.randint(0, 2)
+    g['n_cols'] = max(n_cols, 1)
+    return g
+
+
+contract(
+    M + 'load_csr',
+    properties=['C05', 'C06'],
+    native=dict(gen=_gen_load_csr),
+    params=dict(row_spec='Tuple[Int,Int]', n_cols='Int', data='Arr[Real]', indices='Arr[Int]',
+                indptr='Arr[Int]'),
+    returns='Arr2[Real]',
+    requires=WF_CSR + [
+        "0 <= row_spec[0] <= row_spec[1] <= len(indptr) - 1", "n_cols >= 0",
+        "all(0 <= indices[k] < n_cols for k in range(len(indices)))",
+        "all(implies(indptr[i] <= a and a < b and b < indptr[i + 1], indices[a] < indices[b]) "
+        "for i in range(len(indptr) - 1) for a in range(len(indices)) for b in range(len(indices)))",
+    ],
+    ensures=[
+        "result.shape[0] == row_spec[1] - row_spec[0] and result.shape[1] == n_cols",
+        # (stated over the offset kk from the first stored entry of row r0: the form the callee's
+        # post-condition instantiates directly)
+        "all(implies(indptr[row_spec[0] + i] <= indptr[row_spec[0]] + kk and "
+        "indptr[row_spec[0]] + kk < indptr[row_spec[0] + i + 1], "
+        "result[i, indices[indptr[row_spec[0]] + kk]] == data[indptr[row_spec[0]] + kk]) "
+        "for i in range(row_spec[1] - row_spec[0]) "
+        "for kk in range(indptr[row_spec[1]] - indptr[row_spec[0]]))",
+        "all(implies(all(implies(indptr[row_spec[0] + i] <= k and k < indptr[row_spec[0] + i + 1], indices[k] != j) "
+        "for k in range(len(indices))), result[i, j] == 0) "
+        "for i in range(row_spec[1] - row_spec[0]) for j in range(n_cols))",
+    ],
+)
